@@ -267,6 +267,30 @@ def audit(prop_module):
     return (rc == 0 and not problems), thms, problems, n_examples
 
 
+def source_ties(modules):
+    """Tie theorems `translated source = hand-written model` (lean/Starcal/SrcTie/*.lean) over Gen/Src.lean, which
+    the extractor regenerates from /repo on every run. Soft: a module that no longer builds is reported as
+    not established (the correspondence check is then the only tie for that code, and the caller widens it)."""
+    out = {"established": {}, "not_established": {}, "translated_functions": []}
+    src = os.path.join(LEAN, "Starcal", "Gen", "Src.lean")
+    if os.path.exists(src):
+        m = re.search(r"def translated : List String := \[(.*?)\]", open(src).read())
+        if m:
+            out["translated_functions"] = re.findall(r'"([^"]+)"', m.group(1))
+    for mod in modules:
+        ok, lout, secs = lake_build([mod], timeout=900)
+        if not ok:
+            errs = re.findall(r"^error: (\S+?:\d+:\d+: .*)$", lout, flags=re.M)
+            out["not_established"][mod] = [e[:300] for e in errs[:6]] or [lout[-600:]]
+            continue
+        aok, thms, problems, n_ex = audit(mod)
+        if not aok:
+            out["not_established"][mod] = ["audit: " + "; ".join(str(p) for p in problems[:4])]
+            continue
+        out["established"][mod] = {"theorems": thms, "examples": n_ex, "build_s": round(secs, 1)}
+    return out
+
+
 # ------------------------------------------------------------------------------------
 # streams
 
